@@ -8,6 +8,8 @@ import (
 	"context"
 	"errors"
 	"fmt"
+	"sort"
+	"strconv"
 	"strings"
 	"sync"
 	"sync/atomic"
@@ -360,6 +362,7 @@ func (w *zworld) putPolicy(i int, p *zpol) error {
 	sp := w.sc.Policies[i]
 	pol := &structs.ACLPolicy{ID: sp.ID, Name: fmt.Sprintf("pol-%d", i), Rules: p.Text, Datacenters: append([]string(nil), sp.DCs...)}
 	pol.SetHash(true)
+	w.cur = append([]*zpol(nil), w.cur...) // snapshots taken earlier stay valid
 	w.cur[i] = p
 	return w.store.ACLPolicySet(w.idx, pol)
 }
@@ -439,7 +442,7 @@ type zscWitness struct {
 }
 
 // judgeResolver classifies a disagreement of the resolver path.
-func (w *zworld) judge(m *zmon, part string, step, t int, want, got []byte) {
+func (w *zworld) judge(m *zmon, part string, step, t int, want, got []byte, hist []zhist) {
 	i := zvPickDiff(want, got)
 	q := zvQueries[i]
 	eff := w.sc.effective(w.cur, t, false)
@@ -462,23 +465,95 @@ func (w *zworld) judge(m *zmon, part string, step, t int, want, got []byte) {
 		m.run.Violation("C08:resolver-semantics:"+zvQueries[j].Fn, desc+" (fresh resolver, no earlier traffic)", wit)
 		return
 	}
+	// the fresh resolver agrees with the reference: the decision depends on earlier resolutions. Replay
+	// the policy lists of the tokens resolved so far through Compile with one shared ACLCaches and look
+	// at the parsed-policy cache (zmon.mutated) to name the mechanism.
 	kind := zvKindOf(q.Fn)
-	if kind != "" {
-		sel, _ := zvNewRef(eff).selectRules(kind, q.Arg)
-		list := kind
-		if len(sel) > 0 && sel[0].Prefix {
-			list += "_prefix"
-		}
-		if len(sel) > 0 {
-			m.run.Violation("C08:policy-merge:cached-rule-mutated:"+list,
-				desc+"; a fresh resolver over the same store agrees with the reference, so the decision leaked from other tokens resolved earlier through the resolver's caches (deciding rule list of the token: "+list+")", wit)
-			return
-		}
-	} else {
+	if kind == "" {
 		kind = q.Fn
 	}
-	m.run.Violation("C08:purity:decision-depends-on-shared-caches:"+kind,
+	if lists := w.replayMutated(m, hist); len(lists) > 0 {
+		for _, l := range lists {
+			m.run.Violation("C08:policy-merge:cached-rule-mutated:"+l,
+				desc+"; a fresh resolver over the same store agrees with the reference; replaying the policy lists of the tokens resolved so far through ACLPolicies.Compile with one shared ACLCaches leaves a parsed policy in the cache whose list "+l+" no longer corresponds to its rule text", wit)
+		}
+		return
+	}
+	m.run.Violation("C08:purity:resolver-decision-depends-on-earlier-resolutions:"+kind,
 		desc+"; a fresh resolver over the same store agrees with the reference", wit)
+}
+
+// zhist: one resolution of the history: token and the policy contents at that time
+type zhist struct {
+	t   int
+	cur []*zpol
+}
+
+// pairsOf: the policies ResolveToken compiles for token t when the stored policies have contents cur
+// (linked policies valid in dc1 sorted by ID, then one synthetic policy per valid service / node
+// identity), each with its reference spec. The policy objects are rebuilt exactly as putPolicy stores them.
+func (w *zworld) pairsOf(t int, cur []*zpol) []zpair {
+	tk := w.sc.Tokens[t]
+	idxs := append([]int(nil), tk.Pols...)
+	svc := append([]zident(nil), tk.SvcIDs...)
+	node := append([]zident(nil), tk.NodeIDs...)
+	for _, ri := range tk.Roles {
+		idxs = append(idxs, w.sc.Roles[ri].Pols...)
+		svc = append(svc, w.sc.Roles[ri].SvcIDs...)
+		node = append(node, w.sc.Roles[ri].NodeIDs...)
+	}
+	sort.Slice(idxs, func(a, b int) bool { return w.sc.Policies[idxs[a]].ID < w.sc.Policies[idxs[b]].ID })
+	var out []zpair
+	seen := map[int]bool{}
+	for _, i := range idxs {
+		sp := w.sc.Policies[i]
+		if seen[i] || !zvInDC1(sp.DCs) {
+			continue
+		}
+		seen[i] = true
+		pol := &structs.ACLPolicy{ID: sp.ID, Name: fmt.Sprintf("pol-%d", i), Rules: cur[i].Text, Datacenters: append([]string(nil), sp.DCs...)}
+		// a different content gets a different modify index, as in the store
+		pol.ModifyIndex, _ = strconv.ParseUint(core.Hash(cur[i].Text)[:12], 16, 64)
+		pol.SetHash(true)
+		out = append(out, zpair{pol, cur[i]})
+	}
+	names := map[string]bool{}
+	for _, id := range svc {
+		if zvInDC1(id.DCs) && !names["s"+id.Name] {
+			names["s"+id.Name] = true
+			sp := &zpol{Label: "svcid:" + id.Name, SvcID: id.Name}
+			out = append(out, zpair{zvMkPolicy(sp, "", 0), sp})
+		}
+	}
+	for _, id := range node {
+		if zvInDC1(id.DCs) && !names["n"+id.Name] {
+			names["n"+id.Name] = true
+			sp := &zpol{Label: "nodeid:" + id.Name, NodeID: id.Name}
+			out = append(out, zpair{zvMkPolicy(sp, "", 0), sp})
+		}
+	}
+	return out
+}
+
+func (w *zworld) replayMutated(m *zmon, hist []zhist) []string {
+	cfg := zvServerCaches
+	if w.sc.Caches != "server" {
+		cfg = zvNoAuthzCaches
+	}
+	caches := zvCaches(cfg)
+	var all []zpair
+	for _, h := range hist {
+		pairs := w.pairsOf(h.t, h.cur)
+		var list []*structs.ACLPolicy
+		for _, pr := range pairs {
+			list = append(list, pr.obj)
+		}
+		all = append(all, pairs...)
+		if _, err := zvCompile(caches, list); err != nil {
+			return nil
+		}
+	}
+	return m.mutated(caches, all)
 }
 
 func (w *zworld) close() { w.res.Close() }
@@ -493,6 +568,7 @@ func (m *zmon) runScenario(sc *zscenario) {
 	defer w.close()
 	earlier := map[int][]byte{}
 	var resolved []int
+	var hist []zhist
 	resolutions, decisions := 0, 0
 	defer func() { m.count("resolver_resolutions", resolutions); m.count("decisions_compared", decisions) }()
 	for si, st := range sc.Steps {
@@ -523,6 +599,7 @@ func (m *zmon) runScenario(sc *zscenario) {
 			}
 		}
 		for _, t := range order {
+			hist = append(hist, zhist{t, w.cur})
 			got, err := w.resolveVector(w.res, t)
 			resolutions++
 			if err != nil {
@@ -533,11 +610,11 @@ func (m *zmon) runScenario(sc *zscenario) {
 			want := w.want(m, t, false)
 			decisions += len(got)
 			if zvDiff(want, got) >= 0 {
-				w.judge(m, "C", si, t, want, got)
+				w.judge(m, "C", si, t, want, got, hist)
 				return
 			}
 			if e := earlier[t]; e != nil && zvDiff(e, got) >= 0 {
-				w.judge(m, "C", si, t, e, got)
+				w.judge(m, "C", si, t, e, got, hist)
 				return
 			}
 			earlier[t] = got
@@ -637,11 +714,11 @@ func zvRaceParts(m *zmon, rng *core.Rand, pools map[string][]*zpol) {
 		}
 		caches := zvCaches(cfg)
 		objs := map[string]*structs.ACLPolicy{}
-		var allObjs []*structs.ACLPolicy
+		var allObjs []zpair
 		for _, p := range ws {
 			o := zvMkPolicy(p, "", 5)
 			objs[p.Label] = o
-			allObjs = append(allObjs, o)
+			allObjs = append(allObjs, zpair{o, p})
 		}
 		lists := make([][]*structs.ACLPolicy, len(toks))
 		for i, t := range toks {
@@ -693,7 +770,27 @@ func zvRaceParts(m *zmon, rng *core.Rand, pools map[string][]*zpol) {
 			want := m.refVector(toks[i].Pols)
 			m.count("decisions_compared", len(want))
 			if zvDiff(want, got[i]) >= 0 {
-				m.judge(w, want, got[i], zvFreshVector(toks[i].Pols), zvMutatedLists(caches, allObjs))
+				mut := m.mutated(caches, allObjs)
+				if len(mut) == 0 {
+					// concurrent cache misses can leave the mutated parsed policy outside the cache:
+					// compile the same lists once more, sequentially, through new shared caches
+					c2 := zvCaches(cfg)
+					var p2 []zpair
+					o2 := map[string]*structs.ACLPolicy{}
+					for _, p := range ws {
+						o2[p.Label] = zvMkPolicy(p, "", 5)
+						p2 = append(p2, zpair{o2[p.Label], p})
+					}
+					for _, t := range toks {
+						var l []*structs.ACLPolicy
+						for _, p := range t.Pols {
+							l = append(l, o2[p.Label])
+						}
+						zvCompile(c2, l)
+					}
+					mut = m.mutated(c2, p2)
+				}
+				m.judge(w, want, got[i], zvFreshVector(toks[i].Pols), mut)
 				break
 			}
 		}
@@ -737,6 +834,10 @@ func zvRaceParts(m *zmon, rng *core.Rand, pools map[string][]*zpol) {
 		if sc.sharing() {
 			m.run.NonTrivial(core.Hash("race-resolve", core.JSON(sc), fmt.Sprint(picks)))
 		}
+		var raceHist []zhist
+		for _, t := range picks {
+			raceHist = append(raceHist, zhist{t, w.cur})
+		}
 		for i, t := range picks {
 			if errs[i] != nil {
 				m.run.Violation("C08:resolver-error", fmt.Sprintf("concurrent ResolveToken of a stored token failed: %v", errs[i]),
@@ -746,7 +847,7 @@ func zvRaceParts(m *zmon, rng *core.Rand, pools map[string][]*zpol) {
 			want := w.want(m, t, false)
 			m.count("decisions_compared", len(want))
 			if zvDiff(want, got[i]) >= 0 {
-				w.judge(m, "race-resolve", 0, t, want, got[i])
+				w.judge(m, "race-resolve", 0, t, want, got[i], raceHist)
 				break
 			}
 		}
